@@ -375,7 +375,7 @@ LATE = 1.5         # seconds after the signal at which the client sends what it 
 KEEPALIVE = 8
 
 
-def scenario(cls, phase, app, sig, graceful=4, bind="unix", saturated=False, timeout=None, two_binds=False):
+def scenario(cls, phase, app, sig, graceful=4, bind="unix", saturated=False, timeout=None, two_binds=False, group=False):
     """app: 'finish' (needs 1.2 s), 'overrun' (graceful + 3 s), 'never' (60 s); saturated: worker_connections = 1 and one more
     client waiting for a slot when the signal arrives (gevent / eventlet: the acceptor is inside pool.spawn, not in accept);
     timeout: the worker `timeout` setting when it is to be SHORTER than the request and than graceful_timeout (a worker class
@@ -391,6 +391,10 @@ def scenario(cls, phase, app, sig, graceful=4, bind="unix", saturated=False, tim
         scn["timeout"] = timeout
     if two_binds:
         scn["two_binds"] = True          # a second listener on which nothing ever arrives (the connection is on the FIRST one)
+    if group:
+        # the signal goes to the master's whole process group (systemd's KillMode=control-group, a terminal's Ctrl-C): every
+        # worker receives it directly AND once more from the master - being told twice changes nothing
+        scn["group"] = True
     return scn
 
 
@@ -442,7 +446,10 @@ def real_case(scn):
         def waiter():
             box["rc"], box["dt"] = srv.wait_master_exit(wait=scn["graceful"] * 2 + 15)
         tw = threading.Thread(target=waiter)
-        srv.signal(getattr(_signal, "SIG" + scn["sig"]))
+        if scn.get("group"):
+            os.killpg(os.getpgid(srv.master), getattr(_signal, "SIG" + scn["sig"]))
+        else:
+            srv.signal(getattr(_signal, "SIG" + scn["sig"]))
         tw.start()
         if later is not None:
             time.sleep(LATE)
@@ -574,6 +581,8 @@ def real_scenarios(ctx):
         scns.append(scenario("eventlet", "resp", "finish", "TERM", graceful=4, bind="unix", two_binds=True))
         scns.append(scenario("gthread", "app", "finish", "TERM", graceful=6, bind="unix", timeout=2))
         scns.append(scenario("eventlet", "app", "finish", "TERM", graceful=6, bind="tcp", timeout=2))
+        scns.append(scenario("sync", "app", "finish", "TERM", graceful=4, bind="unix", group=True))
+        scns.append(scenario("gevent", "resp", "finish", "TERM", graceful=4, bind="tcp", group=True))
         # two more, chosen by the seed
         for _ in range(2):
             scns.append(scenario(ctx.rng.choice(list(CLS_COQ)), ctx.rng.choice(list(PHASE_COQ)), ctx.rng.choice(["finish", "finish", "overrun"]),
@@ -598,6 +607,9 @@ def real_scenarios(ctx):
     for c in ("gevent", "eventlet", "gthread"):
         for p in ("app", "resp"):
             scns.append(scenario(c, p, "finish", "TERM", graceful=6, bind="unix", timeout=2))
+            scns.append(scenario(c, p, "finish", "TERM", graceful=4, bind="unix", group=True))
+    for p in ("app", "resp"):
+        scns.append(scenario("sync", p, "finish", "TERM", graceful=4, bind="unix", group=True))
     for c in CLS_COQ:
         for p in ("head", "app", "resp"):
             scns.append(scenario(c, p, "finish", "TERM", graceful=4, bind=("tcp" if p == "app" else "unix"), two_binds=True))
